@@ -379,10 +379,123 @@ fn tell_main(env: &mut Env<VS>, args: Vec<Field>) -> BFut<'_> {
     Box::pin(std::future::ready(BResult::new(st)))
 }
 
+/// Descriptor table of `pid` with the /work directory listing, as text:
+/// `fd,ofd-serial,cloexec,inode-ptr,readable,writable;...|name=inode-ptr;...`
+/// (inode pointers are only compared within one snapshot and are replaced by
+/// small numbers so that the text is the same in every process).
+pub fn table_text(pid: yash_env::job::Pid) -> String {
+    use yash_env::system::r#virtual::FileBody;
+    let state = world_state();
+    let st = state.borrow();
+    let mut ids: std::collections::BTreeMap<usize, usize> = Default::default();
+    let mut names: Vec<(String, usize)> = Vec::new();
+    if let Ok(dir) = st.file_system.get("/work")
+        && let FileBody::Directory { files } = &dir.borrow().body
+    {
+        for (name, inode) in files {
+            names.push((
+                String::from_utf8_lossy(name.as_bytes()).into_owned(),
+                std::rc::Rc::as_ptr(inode) as *const u8 as usize,
+            ));
+        }
+    }
+    names.sort();
+    for (_, p) in &names {
+        let n = ids.len() + 1;
+        ids.entry(*p).or_insert(n);
+    }
+    let mut s = String::new();
+    if let Some(p) = st.processes.get(&pid) {
+        for (fd, body) in p.fds() {
+            let ofd = body.open_file_description.borrow();
+            let ino = std::rc::Rc::as_ptr(ofd.inode()) as *const u8 as usize;
+            let n = ids.len() + 1;
+            let ino_id = *ids.entry(ino).or_insert(n);
+            s.push_str(&format!(
+                "{},{},{},{},{},{};",
+                fd.0,
+                ofd.serial(),
+                body.flags.contains(yash_env::system::FdFlag::CloseOnExec) as u8,
+                ino_id,
+                ofd.is_readable() as u8,
+                ofd.is_writable() as u8
+            ));
+        }
+    }
+    s.push('|');
+    for (name, p) in &names {
+        s.push_str(&format!("{name}={};", ids[p]));
+    }
+    s
+}
+
+/// `io OP...` - I/O through descriptors, recorded in the simulator's history.
+/// `t:LABEL` records the descriptor table and `$?`; `wN:TEXT` writes TEXT and a
+/// newline to descriptor N; `rN` reads one line from descriptor N. Always
+/// returns 0.
+fn io_main(env: &mut Env<VS>, args: Vec<Field>) -> BFut<'_> {
+    Box::pin(async move {
+        let pid = env.system.getpid();
+        let status = env.exit_status.0;
+        let mut k: i64 = 0;
+        for a in strs(&args) {
+            if let Some(label) = a.strip_prefix("t:") {
+                k = label.trim_start_matches(|c: char| c.is_alphabetic()).parse().unwrap_or(0);
+                if let Some(ctl) = ctl() {
+                    ctl.record(pid.0, "iot", k, 0, &format!("{label}|{status}|{}", table_text(pid)));
+                }
+            } else if let Some(rest) = a.strip_prefix('w') {
+                let (fd, text) = rest.split_once(':').unwrap_or((rest, ""));
+                let fd = Fd(fd.parse().unwrap_or(1));
+                let data = format!("{text}\n");
+                let r = env.system.write_all(fd, data.as_bytes()).await;
+                if let Some(ctl) = ctl() {
+                    ctl.record(pid.0, "io", k, 0, &format!("w{}:{}", fd.0, if r.is_ok() { "ok" } else { "err" }));
+                }
+            } else if let Some(rest) = a.strip_prefix('r') {
+                let fd = Fd(rest.parse().unwrap_or(0));
+                let mut line = Vec::new();
+                let mut res = "ok";
+                loop {
+                    let mut b = [0u8; 1];
+                    match env.system.read(fd, &mut b).await {
+                        Ok(0) => {
+                            if line.is_empty() {
+                                res = "eof";
+                            }
+                            break;
+                        }
+                        Ok(_) => {
+                            if b[0] == b'\n' {
+                                break;
+                            }
+                            line.push(b[0]);
+                        }
+                        Err(Errno::EINTR) => continue,
+                        Err(_) => {
+                            res = "err";
+                            break;
+                        }
+                    }
+                }
+                let text = match res {
+                    "ok" => format!("r{}:{}", fd.0, String::from_utf8_lossy(&line)),
+                    other => format!("r{}:{other}", fd.0),
+                };
+                if let Some(ctl) = ctl() {
+                    ctl.record(pid.0, "io", k, 0, &text);
+                }
+            }
+        }
+        BResult::new(ExitStatus::SUCCESS)
+    })
+}
+
 pub fn virtual_probes() -> Vec<(&'static str, Builtin<VS>)> {
     let mut v = generic_probes::<VS>();
     v.push(("mark", Builtin::new(Type::Mandatory, mark_main)));
     v.push(("fds", Builtin::new(Type::Mandatory, fds_main)));
     v.push(("tell", Builtin::new(Type::Mandatory, tell_main)));
+    v.push(("io", Builtin::new(Type::Mandatory, io_main)));
     v
 }
